@@ -1,10 +1,12 @@
 package mon
 
 import (
+	"context"
 	"fmt"
 	"math/rand/v2"
 	"sort"
 
+	"github.com/tychoish/fun"
 	"github.com/tychoish/fun/dt"
 	"github.com/tychoish/fun/dt/cmp"
 
@@ -22,6 +24,9 @@ type kv struct {
 	K   int
 	UID int
 }
+
+// LessThan makes kv a cmp.Orderable for cmp.LessThanCustom.
+func (a kv) LessThan(b kv) bool { return a.K < b.K }
 
 type c17cmp struct {
 	name   string
@@ -43,6 +48,7 @@ func c17comparators() []c17cmp {
 		{"strict-reverse", rev, rev},
 		{"cmp.Reverse", cmp.Reverse[kv](native), rev}, // >= : not strict, judged by the strict order it stands for
 		{"key-projected-abs", cmp.LessThanConverter(func(x kv) int { return abs(x.K) }), func(a, b kv) bool { return abs(a.K) < abs(b.K) }},
+		{"custom-method", cmp.LessThanCustom[kv], native},
 		{"key-projected-mod3", cmp.LessThanConverter(func(x kv) int { return ((x.K % 3) + 3) % 3 }), func(a, b kv) bool { return ((a.K%3)+3)%3 < ((b.K%3)+3)%3 }},
 	}
 }
@@ -149,8 +155,8 @@ func runC17(r *kit.Run) {
 		for j, k := range keys {
 			in[j] = kv{k, j + 1}
 		}
-		opKind := int(i/int64(len(c17classes)*len(cmps))) % 4
-		opName := [...]string{"SortMerge", "SortQuick", "IsSorted", "Heap"}[opKind]
+		opKind := int(i/int64(len(c17classes)*len(cmps))) % 6
+		opName := [...]string{"SortMerge", "SortQuick", "IsSorted", "Heap", "Pairs.SortMerge", "Pairs.SortQuick"}[opKind]
 		caseDesc := map[string]any{"op": opName, "class": class, "cmp": cm.name, "keys": keys}
 		viol := func(kind, detail string) {
 			r.Violation("C17/"+opName+"/"+kind, i, caseDesc, detail, nil)
@@ -337,10 +343,64 @@ func runC17(r *kit.Run) {
 					viol("wrong-answer", fmt.Sprintf("IsSorted=%v, independent adjacent-pair scan says %v for %v", got, want, keys))
 				}
 				r.Count(fmt.Sprintf("issorted_%v", want), 1)
-			case 3:
-				h := &dt.Heap[kv]{LT: cm.lt}
+			case 4, 5:
+				// dt.Pairs sorts through the same list code
+				ps := &dt.Pairs[int, int]{}
 				for _, x := range in {
-					h.Push(x)
+					ps.Add(x.K, x.UID)
+				}
+				plt := func(a, b dt.Pair[int, int]) bool { return cm.lt(kv{a.Key, a.Value}, kv{b.Key, b.Value}) }
+				if opKind == 4 {
+					ps.SortMerge(plt)
+				} else {
+					ps.SortQuick(plt)
+				}
+				var out []kv
+				for _, pr := range ps.Slice() {
+					out = append(out, kv{pr.Key, pr.Value})
+				}
+				if ps.Len() != len(in) || len(out) != len(in) {
+					viol("not-a-permutation", fmt.Sprintf("Len()=%d Slice=%d input=%d: %v", ps.Len(), len(out), len(in), out))
+					return
+				}
+				seen := map[int]int{}
+				for _, x := range out {
+					seen[x.UID]++
+				}
+				for _, x := range in {
+					if seen[x.UID] != 1 {
+						viol("not-a-permutation", fmt.Sprintf("uid %d appears %d times after sort: %v", x.UID, seen[x.UID], out))
+						return
+					}
+				}
+				for j := 1; j < len(out); j++ {
+					if cm.strict(out[j], out[j-1]) {
+						viol("out-of-order", fmt.Sprintf("position %d (%v) is less than its predecessor (%v): %v", j, out[j], out[j-1], out))
+						return
+					}
+					if opKind == 5 && !cm.strict(out[j-1], out[j]) && cm.name != "cmp.Reverse" && out[j-1].UID > out[j].UID {
+						viol("unstable", fmt.Sprintf("SortQuick reordered equal elements %v and %v: %v", out[j-1], out[j], out))
+						return
+					}
+				}
+				ps.Add(1000, 1000)
+				if sl := ps.Slice(); ps.Len() != len(in)+1 || sl[len(sl)-1].Value != 1000 {
+					viol("unusable-after-sort", "Add after the sort did not land at the end")
+				}
+			case 3:
+				var h *dt.Heap[kv]
+				if rng.IntN(2) == 0 {
+					var err error
+					h, err = dt.NewHeapFromIterator(context.Background(), cm.lt, fun.SliceIterator(append([]kv(nil), in...)))
+					if err != nil {
+						viol("constructor", fmt.Sprintf("NewHeapFromIterator: %v", err))
+						return
+					}
+				} else {
+					h = &dt.Heap[kv]{LT: cm.lt}
+					for _, x := range in {
+						h.Push(x)
+					}
 				}
 				if h.Len() != len(in) {
 					viol("len", fmt.Sprintf("Heap.Len()=%d after %d pushes", h.Len(), len(in)))
